@@ -59,6 +59,7 @@ type funcContract struct {
 	readsUnlocked map[string]string
 	setupOnly     string
 	lockHandoff   string
+	waitsHolding  string
 	assumeAllCalleeReq bool
 	sweep         bool // synthetic contract of the lock-discipline sweep
 	ghostAt      []ghostUpdate
@@ -435,6 +436,12 @@ func (cs *contractSet) loadFile(path, pkgPath string) error {
 				// the preconditions of every callee under contract are data invariants this function does not
 				// track: assumed at each call and listed in the evidence (the function's own obligations stand)
 				cur.assumeAllCalleeReq = true
+			case "waits_holding":
+				// waits_holding <reason>: WaitGroup.Wait under a lock the waited-for goroutines never take
+				cur.waitsHolding = rest
+				if rest == "" {
+					return fail(fmt.Errorf("waits_holding needs a reason"))
+				}
 			case "lock_handoff":
 				// lock_handoff <reason>: the function returns with a lock taken or released on purpose (its
 				// callers pair it); no balance obligations, listed in the evidence
